@@ -13,7 +13,7 @@ TRUSTED_BASE = base.TRUSTED_BASE
 ASSUMPTIONS = base.ASSUMPTIONS + ['reading: a "write" is one call of __call__/set_val/__setitem__ (and the re-store done by resize) on an existing real-valued object; construction and complex writes are not counted',
                                   '"results of arithmetic" = results of the binary operators/functions that go through the function wrappers']
 RULE = ('HIST lines: random histories (<=10 steps) of scalar/array writes by call and set_val (values as numbers/lists, every third time inside another exact Fxp object), indexed writes, reset, resize and arithmetic-derive on formats <=52 bits with a recording Callback; after every step flags, fired callbacks (in order) '
-        'and, for derive steps, the inaccuracy flag of x+y are compared. Write values sit at hi, hi+1/4 LSB, hi+1, lo, lo-1/4 LSB, lo-1, codes and ties. non-trivial = a history in which some flag was raised')
+        'and, for derive steps, the inaccuracy flag of x+y (operator, function, function with out=, np.add with out=, config.op_out holder, out_like=) are compared. Write values sit at hi, hi+1/4 LSB, hi+1, lo, lo-1/4 LSB, lo-1, codes and ties. non-trivial = a history in which some flag was raised')
 TECHNIQUE = 'Lean 4 theorems on the status state machine (flags iff conditions, trace exact, stickiness by induction over histories, reset, propagation) + differential correspondence of flag/callback traces'
 LEVEL_TEXT = ('Machine-checked on the status state machine: a write from any state raises overflow/underflow/inaccuracy exactly when some rounded element exceeds the maximum / is below the minimum / some stored element differs from its input; the callback trace of a write is the '
               'conditions that occurred (each once, in order) followed by exactly one value-change; a raised flag stays raised along every history without reset (induction over histories); reset clears the three flags and nothing else; arithmetic results inherit inaccuracy. '
@@ -91,7 +91,19 @@ def exec_HIST(t):
                 z1 = x + y
                 z2 = fxpmath.add(y, x)
                 a, b = z1.status['inaccuracy'], z2.status['inaccuracy']
-                if a != b:
+                # the same result delivered into an existing (clean, exactly fitting) holder by every out= route
+                mkh = lambda: Fxp(None if z1.ndim == 0 else np.zeros(z1.shape, dtype=int), z1.signed, z1.n_word, z1.n_frac)
+                z3 = fxpmath.add(x, y, out=mkh())
+                z4 = np.add(x, y, out=mkh())
+                old_out = x.config.op_out
+                x.config.op_out = mkh()
+                try:
+                    z5 = x + y
+                finally:
+                    x.config.op_out = old_out
+                z6 = fxpmath.sub(x, y, out_like=z1) if len(out) % 2 else fxpmath.add(y, x, out_like=z1)
+                others = [z.status['inaccuracy'] for z in (z3, z4, z5, z6)]
+                if a != b or any(o_ != a for o_ in others):
                     out.append(flags(x) + ':zmismatch')
                 else:
                     out.append(flags(x) + ':' + ('z1' if a else 'z0'))
